@@ -3,207 +3,77 @@ package engine
 import (
 	"encoding/json"
 	"fmt"
-	"os"
-	"sort"
+	"strings"
 	"testing"
-	"time"
+
+	"verifsim/work"
 )
 
-// Job is what the driver (/verif/bin/check) hands to one worker process.
-type Job struct {
-	Prop     string  `json:"prop"`
-	Tier     string  `json:"tier"`
-	SeedBase uint64  `json:"seed_base"`
-	First    int     `json:"first"` // run indices [First, First+Count) step Stride
-	Count    int     `json:"count"`
-	Stride   int     `json:"stride"`
-	BudgetS  float64 `json:"budget_s"` // stop starting new runs after this many seconds
-	Out      string  `json:"out"`
-	Replay   string  `json:"replay,omitempty"` // path of a replay file: run exactly that case
-	Trace    bool    `json:"trace,omitempty"`
-}
-
-type Found struct {
-	Violation
-	RunIndex int    `json:"run_index"`
-	Seed     uint64 `json:"seed"`
-	Case     *Case  `json:"case"`
-	Hash     string `json:"hash"`
-	Detail   string `json:"detail,omitempty"`
-}
-
-type WorkerOut struct {
-	Prop         string         `json:"prop"`
-	Runs         int            `json:"runs"`
-	Nontrivial   int            `json:"nontrivial"`
-	Steps        int64          `json:"steps"`
-	Switches     int64          `json:"switches"`
-	FSOps        int64          `json:"fs_ops"`
-	SimNS        int64          `json:"sim_ns"`
-	WallS        float64        `json:"wall_s"`
-	Evaluations  int64          `json:"evaluations"` // oracle evaluations (reads checked, images recovered, ...)
-	Probes       map[string]int `json:"probes"`
-	Faults       map[string]int `json:"faults"`
-	Foreign      map[string]int `json:"foreign"`
-	Found        []Found        `json:"found"`
-	Hashes       []string       `json:"hashes"`        // schedule signature per nontrivial run
-	SwitchPairs  []uint64       `json:"switch_pairs"`  // distinct (site,site) context switches
-	Sample       any            `json:"sample,omitempty"`
-	Inconclusive int            `json:"inconclusive"`
-	Strategies   map[string]int `json:"strategies"`
-	RunHashes    map[string]string `json:"run_hashes,omitempty"` // determinism mode: run index -> event log hash
-}
-
-func mixSeed(base uint64, idx int) uint64 {
-	x := base + uint64(idx)*0x9e3779b97f4a7c15
-	x ^= x >> 31
-	x *= 0xbf58476d1ce4e5b9
-	x ^= x >> 29
-	if x == 0 {
-		x = 1
-	}
-	return x
-}
+func mixSeed(base uint64, idx int) uint64 { return work.MixSeed(base, idx) }
 
 func TestWorker(t *testing.T) {
-	path := os.Getenv("VERIF_JOB")
-	if path == "" {
-		t.Skip("VERIF_JOB not set")
-	}
-	b, err := os.ReadFile(path)
-	if err != nil {
-		t.Fatal(err)
-	}
-	var job Job
-	if err := json.Unmarshal(b, &job); err != nil {
-		t.Fatal(err)
-	}
-	spec, ok := Specs[job.Prop]
-	if !ok {
-		t.Fatalf("no spec for %s", job.Prop)
-	}
-	out := &WorkerOut{Prop: job.Prop, Probes: map[string]int{}, Faults: map[string]int{}, Foreign: map[string]int{},
-		Strategies: map[string]int{}, RunHashes: map[string]string{}}
-	start := time.Now()
-	pairs := map[uint64]struct{}{}
-	curT = t
-	warmup(t)
-
-	runOne := func(idx int, c *Case) {
-		res := RunCase(t, c, job.Trace)
-		ev := spec.Check(res)
-		out.Runs++
-		out.Steps += int64(res.Sim.Steps)
-		out.Switches += int64(res.Sim.Switches)
-		if res.Sim.FS != nil {
-			out.FSOps += int64(res.Sim.FS.Ops)
-		}
-		out.SimNS += res.Sim.SimEnd.Sub(res.Sim.SimStart).Nanoseconds()
-		out.Evaluations += int64(ev.Evaluations)
-		out.Inconclusive += ev.Inconclusive
-		out.Strategies[c.Sim.Strategy]++
-		if res.Sim.Leaked > 0 {
-			out.Probes["leaked_goroutines"] += res.Sim.Leaked
-		}
-		for k, v := range res.Probes {
-			out.Probes[k] += v
-		}
-		for k, v := range ev.Probes {
-			out.Probes[k] += v
-		}
-		for k, v := range ev.Faults {
-			out.Faults[k] += v
-		}
-		for k, v := range ev.Foreign {
-			out.Foreign[k] += v
-		}
-		for k := range res.Sim.SwitchPairs {
-			pairs[k] = struct{}{}
-		}
-		h := fmt.Sprintf("%016x", res.Sim.Hash)
-		out.RunHashes[fmt.Sprint(idx)] = h
-		if ev.Nontrivial {
-			out.Nontrivial++
-			out.Hashes = append(out.Hashes, h)
-		}
-		if out.Sample == nil && ev.Nontrivial {
-			out.Sample = sampleOf(res, ev)
-		}
-		for _, v := range ev.Mine {
-			v.Prop = job.Prop
-			f := Found{Violation: v, RunIndex: idx, Seed: c.Seed, Case: c, Hash: h}
-			if res.FatalStk != "" && v.Oracle == "fatal" {
-				f.Detail = res.FatalStk
+	runners := map[string]work.Runner{}
+	for name, spec := range Specs {
+		spec := spec
+		runners[name] = func(t *testing.T, seed uint64, tier string, replay json.RawMessage, trace bool) *work.RunOut {
+			curT = t
+			var c *Case
+			if replay != nil {
+				c = &Case{}
+				if err := json.Unmarshal(replay, c); err != nil {
+					t.Fatal(err)
+				}
+			} else {
+				c = spec.Gen(seed, tier)
 			}
-			if res.Sim.DeadInfo != "" && (v.Oracle == "deadlock" || v.Oracle == "livelock") {
-				f.Detail = res.Sim.DeadInfo
+			res := RunCase(t, c, trace)
+			ev := spec.Check(res)
+			ro := &work.RunOut{Case: c, Seed: c.Seed, Hash: fmt.Sprintf("%016x", res.Sim.Hash), Steps: res.Sim.Steps, Switches: res.Sim.Switches,
+				SimNS: res.Sim.SimEnd.Sub(res.Sim.SimStart).Nanoseconds(), Evaluations: ev.Evaluations, Inconclusive: ev.Inconclusive,
+				Nontrivial: ev.Nontrivial, Strategy: c.Sim.Strategy, Probes: map[string]int{}, Faults: ev.Faults, Foreign: ev.Foreign,
+				Pairs: res.Sim.SwitchPairs, Mine: ev.Mine, Details: map[string]string{}}
+			if res.Sim.FS != nil {
+				ro.FSOps = res.Sim.FS.Ops
 			}
-			if len(out.Found) < 40 {
-				out.Found = append(out.Found, f)
+			for k, v := range res.Probes {
+				ro.Probes[k] += v
 			}
-		}
-		if job.Trace {
-			for _, l := range res.Sim.Log {
-				fmt.Println(l)
+			for k, v := range ev.Probes {
+				ro.Probes[k] += v
 			}
-			hb, _ := json.MarshalIndent(res.Hist, "", " ")
-			fmt.Println(string(hb))
-			fmt.Println("fatal:", res.Fatal, res.FatalStk)
-			fmt.Println("deadlock:", res.Sim.Deadlock, res.Sim.DeadInfo)
+			if res.Sim.Leaked > 0 {
+				ro.Probes["leaked_goroutines"] += res.Sim.Leaked
+			}
+			if res.FatalStk != "" {
+				ro.Details["fatal"] = res.FatalStk
+			}
+			if res.Sim.DeadInfo != "" {
+				ro.Details["deadlock"] = res.Sim.DeadInfo
+				ro.Details["livelock"] = res.Sim.DeadInfo
+			}
+			if ev.Nontrivial {
+				ro.Sample = sampleOf(res, ev)
+			}
+			if trace {
+				hb, _ := json.MarshalIndent(res.Hist, "", " ")
+				ro.TraceText = strings.Join(res.Sim.Log, "\n") + "\n" + string(hb) + "\nfatal: " + res.Fatal + "\n" + res.FatalStk +
+					fmt.Sprintf("\ndeadlock: %v\n%s", res.Sim.Deadlock, res.Sim.DeadInfo)
+			}
+			return ro
 		}
 	}
-
-	if job.Replay != "" {
-		rb, err := os.ReadFile(job.Replay)
-		if err != nil {
-			t.Fatal(err)
-		}
-		var rf ReplayFile
-		if err := json.Unmarshal(rb, &rf); err != nil {
-			t.Fatal(err)
-		}
-		runOne(0, rf.Case)
-	} else {
-		for i := 0; i < job.Count; i++ {
-			if job.BudgetS > 0 && time.Since(start).Seconds() > job.BudgetS {
-				break
-			}
-			idx := job.First + i*job.Stride
-			c := spec.Gen(mixSeed(job.SeedBase, idx), job.Tier)
-			runOne(idx, c)
-		}
-	}
-	for k := range pairs {
-		out.SwitchPairs = append(out.SwitchPairs, k)
-	}
-	sort.Slice(out.SwitchPairs, func(i, j int) bool { return out.SwitchPairs[i] < out.SwitchPairs[j] })
-	out.WallS = time.Since(start).Seconds()
-	ob, _ := json.Marshal(out)
-	if err := os.WriteFile(job.Out, ob, 0o644); err != nil {
-		t.Fatal(err)
-	}
-}
-
-// ReplayFile is what a VIOLATION line points to.
-type ReplayFile struct {
-	Property  string    `json:"property"`
-	Violation Violation `json:"violation"`
-	Case      *Case     `json:"case"`
-	Hash      string    `json:"event_log_hash"`
-	Detail    string    `json:"detail,omitempty"`
-	Original  *Case     `json:"original_case,omitempty"`
-	Note      string    `json:"note,omitempty"`
+	work.Main(t, runners, warmup)
 }
 
 func sampleOf(res *RunResult, ev *Eval) any {
 	s := map[string]any{
-		"case":     res.Case,
-		"steps":    res.Sim.Steps,
-		"switches": res.Sim.Switches,
-		"fs_ops":   0,
-		"tables":   res.NTables,
+		"case":      res.Case,
+		"steps":     res.Sim.Steps,
+		"switches":  res.Sim.Switches,
+		"fs_ops":    0,
+		"tables":    res.NTables,
 		"max_level": res.MaxLevel,
-		"oracle":   ev.Summary,
+		"oracle":    ev.Summary,
 	}
 	if res.Sim.FS != nil {
 		s["fs_ops"] = res.Sim.FS.Ops
@@ -211,9 +81,10 @@ func sampleOf(res *RunResult, ev *Eval) any {
 	return s
 }
 
-// warmup runs one transaction outside any simulation so that lazy
-// initialisation of the codec libraries happens before the first simulated run.
+// warmup runs one small case so that lazy initialisation of the codec
+// libraries happens before the first measured run.
 func warmup(t *testing.T) {
+	curT = t
 	c := GenSeq(1, "warmup", SeqParams{MinTxns: 3, MaxTxns: 3})
 	c.Configs[0].MemtableByteThreshold = 1
 	RunCase(t, c, false)
